@@ -29,7 +29,8 @@
 (* Deviations (constant): "F26" CloneDataNodeSubtree before its repair, and  *)
 (* the wrong variants "pos1" (insert before the first entry reported at 1),  *)
 (* "prelen" (reorder to the end uses the length before the removal),         *)
-(* "silentrm" (RemoveChild does not report the index removal).               *)
+(* "silentrm" (RemoveChild does not report the index removal), "staleentry"  *)
+(* (RemoveChild leaves the index entry behind).                              *)
 (***************************************************************************)
 EXTENDS Integers, Sequences, FiniteSets, TLC, Json
 
@@ -155,7 +156,7 @@ Insert(p, before) ==          \* PR_COMMAND_INSERTORDEREDDATA keys = p, one sub-
                  With(p, [Cur(p) EXCEPT !.kids = x.kids, !.index = x.index, !.ctr = k + 1, !.ops = x.ops]), TRUE, sub, NoSnap, {})
 
 SetChild(p, n, toIndex) ==    \* PR_COMMAND_SETDATA p/n, plain or with the add-to-index flag
-    /\ pv[p] # Absent /\ n \in AllNames /\ (n \in Explicit \/ n \in kids[p]) /\ (n \in kids[p] \/ Cardinality(kids[p]) < MaxKids)
+    /\ pv[p] # Absent /\ n \in AllNames /\ ~(n \notin Explicit /\ n \notin kids[p]) /\ ~(n \notin kids[p] /\ Cardinality(kids[p]) >= MaxKids)   \* (no disjunctions: TLC would take them for choices)
     /\ LET x == IF n \in kids[p] THEN X(p)                                     \* existing child: the payload changes (plain) or nothing at all happens (add-to-index)
                 ELSE IF toIndex THEN InsertEntry([X(p) EXCEPT !.kids = @ \cup {n}], n, "")
                 ELSE [X(p) EXCEPT !.kids = @ \cup {n}]
@@ -176,7 +177,7 @@ Reorder(p, n, before) ==      \* PR_COMMAND_REORDERDATA p/n -> before   (DataNod
 RemoveChild(p, n) ==          \* PR_COMMAND_REMOVEDATA p/n
     /\ pv[p] # Absent /\ n \in kids[p]
     /\ LET a == RemoveEntry(X(p), n)
-           x == IF "silentrm" \in Deviations THEN [a EXCEPT !.ops = <<>>] ELSE a
+           x == IF "silentrm" \in Deviations THEN [a EXCEPT !.ops = <<>>] ELSE IF "staleentry" \in Deviations THEN X(p) ELSE a
        IN Finish([op |-> "remove", s |-> Owner, key |-> p \o "/" \o n], With(p, [Cur(p) EXCEPT !.kids = @ \ {n}, !.index = x.index, !.ops = x.ops]), ip, sub, NoSnap, {})
 
 \* CloneDataNodeSubtree(src, "dst"): payload and children are set plainly, then every entry of the source index is (removed from and)
